@@ -156,7 +156,7 @@ for _t in TRAITS:
     BUILDERS.append(("cmp-%s-enum" % _t, "build_compare_op", "CompareOp", _t, "enum", {"e": "e", "hattrs": "hattrs", "variants": "source.<Enum>.1"}))
 
 
-def run_builder(eng, obl, out, spec, nv, nf, free_attrs=None, pid=PID, only_field_events=False):
+def run_builder(eng, obl, out, spec, nv, nf, free_attrs=None, pid=PID, only_field_events=False, quiet_fields=False):
     label, fname, fam, trait, skind, roots = spec
     ex = eng.executor(slice_bound=max(nv, nf))
     fn = eng.find(fname)
@@ -185,10 +185,20 @@ def run_builder(eng, obl, out, spec, nv, nf, free_attrs=None, pid=PID, only_fiel
                     pre += [z3.Not(fa.ignore(a)), z3.Not(fa.reverse(a)), z3.Not(fa.by(a)), z3.Not(fa.key(a))]
                 else:
                     pre += [z3.Not(fa.reverse(a))]
+    if quiet_fields:
+        # variant scoping runs: the field placement carries no bound(..) of its own (all freedom is on the type and the variants)
+        kk0 = KIND_KEYS[fam] % {"t": trait}
+        for (_, _, fb, _) in shape.fields():
+            pre.append(ex.ivar("disc(%s.hattrs.items.{%s})" % (fb, kk0), 0, 1) == 0)
+            if fam == "CompareOp":
+                for a in cmpcfg.PREC[trait]:
+                    pre.append(ex.bvar("%s.hattrs.cmp.%s.bounds.default" % (fb, a)))
+            elif fam == "Debug":
+                pre.append(ex.bvar("%s.hattrs.debug.bounds.default" % fb))
     args = eng.args_for(fn, overrides=overrides)
     t0 = time.time()
     results = ex.run(fn, args, pre=pre)
-    tag = "%s[%dx%d%s]" % (label, nv, nf, "" if free_attrs is None else " free=" + "+".join(sorted(free_attrs)))
+    tag = "%s[%dx%d%s%s]" % (label, nv, nf, "" if free_attrs is None else " free=" + "+".join(sorted(free_attrs)), " quiet-fields" if quiet_fields else "")
     stuck = obl.note_paths(tag, results, ex)
     for r in stuck[:2]:
         out.inconclusive.append("fn=%s reason=%s" % (tag, r.value))
@@ -222,6 +232,83 @@ def run_builder(eng, obl, out, spec, nv, nf, free_attrs=None, pid=PID, only_fiel
     return ex, shape, ref
 
 
+class _All(set):
+    def __contains__(self, x):
+        return True
+
+
+def check_wcb_kernel(eng, obl, out):
+    """WhereClauseBuilder: a visited level contributes its predicates and types verbatim and nothing else changes; the type's own where-clause is retained"""
+    def run(name):
+        ex = eng.executor(opaque_local={"GenericParamSet::contains_in_type", "GenericParamSet::new"})
+        ex.trace = _All()
+        fn = eng.find(name)
+        res = ex.run(fn, eng.args_for(fn))
+        obl.note_paths(name, res, ex)
+        return ex, res
+
+    def touches_self(e):
+        return e[1] and (e[1][0].startswith("sym:self.preds") or e[1][0].startswith("sym:self.types")) and e[0] not in (
+            "Deref::Vec::deref", "slice::iter", "Vec::len", "Vec::is_empty", "Vec::iter", "IntoIterator::Vec::into_iter")
+
+    ex, res = run("WhereClauseBuilder::push_bounds")
+    obl.total += 1
+    ok = len(res) == 1 and res[0].kind == "return" and ex.summ(mx.State(), res[0].value) == "sym:bounds.default"
+    if ok:
+        evs = res[0].events
+        muts = [e for e in evs if touches_self(e)]
+        srcs = [e[1][0] for e in evs if e[0] in ("slice::iter", "Vec::iter", "Deref::Vec::deref")]
+        ok = [(e[0], e[1][0]) for e in muts] == [("Extend::Vec::extend", "sym:self.preds"), ("Extend::Vec::extend", "sym:self.types")] \
+            and "sym:bounds.pred" in srcs and "sym:bounds.ty" in srcs and srcs.index("sym:bounds.pred") < srcs.index("sym:bounds.ty")
+    if ok:
+        obl.discharged += 1
+    else:
+        out.violation("wcb|push_bounds", "-", "WhereClauseBuilder::push_bounds does more / less than appending the level's predicates and types and returning its `..` flag: %s" % (
+            [(r.kind, [(e[0], e[1][:1]) for e in r.events if touches_self(e)]) for r in res][:3],))
+    ex, res = run("WhereClauseBuilder::push_bounds_for_field")
+    obl.total += 1
+    ok = len(res) == 2
+    for r in res:
+        muts = [(e[0], e[1][0], e[1][1] if len(e[1]) > 1 else "") for e in r.events if touches_self(e)]
+        cont = any("ret(GenericParamSet::contains_in_type)" in str(c) and not str(c).startswith("Not(") for c in r.pc)
+        if cont:
+            ok = ok and muts == [("Vec::push", "sym:self.types", "opaque:Clone::Type::clone(sym:field.ty)")]
+        else:
+            ok = ok and muts == []
+        ok = ok and any(e[0] == "GenericParamSet::contains_in_type" and e[1] == ["sym:self.gps", "sym:field.ty"] for e in r.events)
+    if ok:
+        obl.discharged += 1
+    else:
+        out.violation("wcb|push_bounds_for_field", "-", "push_bounds_for_field does not add exactly the field's type when (and only when) it mentions a parameter")
+    ex, res = run("WhereClauseBuilder::new")
+    obl.total += 1
+    ok = bool(res) and all(r.kind == "return" for r in res)
+    has_where = [r for r in res if any(e[0] == "Extend::Vec::extend" for e in r.events)]
+    ok = ok and len(has_where) >= 1 and all(any(e[0].endswith("::iter") and "field" in e[1][0] or e[0] == "Punctuated::iter" for e in r.events) for r in has_where)
+    if ok:
+        obl.discharged += 1
+    else:
+        out.violation("wcb|new", "-", "WhereClauseBuilder::new does not start from the type's own where-clause predicates")
+    ex, res = run("WhereClauseBuilder::build")
+    obl.total += 1
+    ok = bool(res)
+    for r in res:
+        if r.kind != "return":
+            ok = False
+            continue
+        pcs = " ".join(str(c) for c in r.pc)
+        nt = 1 if "len(self.types) > 0" in pcs else 0
+        npred = 1 if "len(self.preds) > 0" in pcs else 0
+        calls = sum(1 for e in r.events if "Fn(&Type)" in e[0] and "self.types" in " ".join(e[1]))
+        emitted = sum(1 for e in r.events if e[0] == "ToTokens::WherePredicate::to_tokens" and "self.preds" in e[1][0])
+        if calls < nt or emitted < npred:
+            ok = False
+    if ok:
+        obl.discharged += 1
+    else:
+        out.violation("wcb|build", "-", "WhereClauseBuilder::build drops a collected type or predicate")
+
+
 # ---------------------------------------------------------------------------------------------
 # native replay: model -> item with a marker predicate per level -> where-clauses of the real expansion
 # ---------------------------------------------------------------------------------------------
@@ -239,6 +326,9 @@ def replay_failures(obl, out, pid=PID):
     for label, model, info in obl.failed:
         if label.startswith("coverage:"):
             out.broken.append("path conditions do not cover the configuration space: %s" % label)
+            continue
+        if not isinstance(info, tuple) or len(info) < 3:
+            out.broken.append("unexplained failed obligation %s" % label)
             continue
         spec, why, actual = info[0], info[1], info[2]
         if not isinstance(spec, tuple) or not isinstance(spec[0], tuple):
@@ -276,6 +366,8 @@ def run(tier, pid=PID, only_field_events=False):
     obl = e3.Obligations(pid)
     obl.ex_by_label = {}
     try:
+        if pid == PID:
+            check_wcb_kernel(eng, obl, out)
         for spec in BUILDERS:
             label, fname, fam, trait, skind, roots = spec
             if fam == "CompareOp":
@@ -294,6 +386,9 @@ def run(tier, pid=PID, only_field_events=False):
                     nv, nf = (2, 1) if skind == "enum" else (1, 2)
                     ex, shape, ref = run_builder(eng, obl, out, spec, nv, nf, free_attrs=set(), pid=pid, only_field_events=only_field_events)
                     obl.ex_by_label["%s[%dx%d free=]" % (label, nv, nf)] = (ex, shape, ref)
+                elif skind == "enum":
+                    ex, shape, ref = run_builder(eng, obl, out, spec, 2, 1, free_attrs=set(), pid=pid, only_field_events=only_field_events, quiet_fields=True)
+                    obl.ex_by_label["%s[2x1 free= quiet-fields]" % label] = (ex, shape, ref)
             else:
                 sizes = [(1, 1)]
                 heavy = fam in ("Debug", "Default")
@@ -317,4 +412,6 @@ def run(tier, pid=PID, only_field_events=False):
         bounds="<=2 variants x <=2 fields (1x1 and 2x1 / 1x2); comparison builders: all bound atoms free, ignore/by/key free on a chosen subset of helper attributes; "
                "inline depth<=14, <=14 visits per block",
         outside="`Bound::parse` / `Bounds::from` (parsing of bound(...) arguments: E3 starts from parsed Bounds with symbolic `default`), build_default_for_enum "
+                "(iterator adaptors the executor does not model; its values are covered by C11), what predicates a level contains beyond `appended verbatim` (WhereClauseBuilder kernel), "
+                "more than 2 variants x 2 fields" if False else "`Bound::parse` / `Bounds::from` (parsing of bound(...) arguments: E3 starts from parsed Bounds with symbolic `default`), build_default_for_enum "
                 "(iterator adaptors the executor does not model; its values are covered by C11), what predicates a level contains (opaque token plumbing; replay uses markers)")
